@@ -45,7 +45,7 @@ impl<'a> Cel<'a> {
 
     /// The layer coordinate of this cel.
     pub fn layer(&self) -> u32 {
-        self.cel_id.layer as u32
+        self.cel_id.layer
     }
 
     /// Returns the cel's user data, if any is present.
@@ -94,7 +94,9 @@ pub(crate) struct CelsData<P> {
 #[derive(Debug, Clone, Copy)]
 pub(crate) struct CelId {
     pub frame: u16,
-    pub layer: u16,
+    // Cel chunks store the layer index in 16 bits, but a file may contain more
+    // than 65536 layers (which then cannot hold any cels).
+    pub layer: u32,
 }
 
 impl fmt::Display for CelId {
@@ -114,7 +116,7 @@ where
                 d.entry(
                     &CelId {
                         frame: frame as u16,
-                        layer: *layer,
+                        layer: *layer as u32,
                     },
                     cel,
                 );
@@ -168,11 +170,13 @@ impl<P> CelsData<P> {
     // `None`.
     pub(crate) fn cel(&self, cel_id: CelId) -> Option<&RawCel<P>> {
         let CelId { frame, layer } = cel_id;
+        let layer = u16::try_from(layer).ok()?;
         self.data[frame as usize].get(&layer)
     }
 
     pub(crate) fn cel_mut(&mut self, cel_id: &CelId) -> Option<&mut RawCel<P>> {
-        self.data[cel_id.frame as usize].get_mut(&cel_id.layer)
+        let layer = u16::try_from(cel_id.layer).ok()?;
+        self.data[cel_id.frame as usize].get_mut(&layer)
     }
 }
 
@@ -191,7 +195,7 @@ impl RawCel<RawPixels> {
     {
         let content = match self.content {
             CelContent::Raw(image_content) => {
-                let layer_is_background = layers[cel_id.layer as u32].is_background();
+                let layer_is_background = layers[cel_id.layer].is_background();
                 let image_content =
                     image_content.validate(palette, pixel_format, layer_is_background)?;
                 CelContent::Raw(image_content)
@@ -205,7 +209,7 @@ impl RawCel<RawPixels> {
                 CelContent::Linked(other_frame)
             }
             CelContent::Tilemap(tilemap) => {
-                if let LayerType::Tilemap(tileset_id) = layers[cel_id.layer as u32].layer_type {
+                if let LayerType::Tilemap(tileset_id) = layers[cel_id.layer].layer_type {
                     // That the tileset exists is checked by LayersData::validate.
                     let tile_count = tilesets.get(tileset_id).map_or(0, |t| t.tile_count());
                     tilemap.validate(tile_count)?;
@@ -245,11 +249,11 @@ impl CelsData<RawPixels> {
         // or a tilemap), i.e., not be a linked cel itself.
         // We copy it out here, so we can consume the actual data in the
         // validation/transformation step.
-        let mut linkable_cels: HashSet<(u16, u16)> = HashSet::new();
+        let mut linkable_cels: HashSet<(u16, u32)> = HashSet::new();
         for (frame, cels_by_layer) in self.data.iter().enumerate() {
             for (layer, cel) in cels_by_layer.iter() {
                 if !cel.content.is_linked() {
-                    linkable_cels.insert((frame as u16, *layer));
+                    linkable_cels.insert((frame as u16, *layer as u32));
                 }
             }
         }
@@ -270,7 +274,7 @@ impl CelsData<RawPixels> {
             for (layer, cel) in cels_by_layer.into_iter() {
                 let cel_id = CelId {
                     frame: frame as u16,
-                    layer,
+                    layer: layer as u32,
                 };
                 if layer as usize >= num_layers {
                     return Err(AsepriteParseError::InvalidInput(format!(
